@@ -950,6 +950,12 @@ func vFmtDay(day int, layout string) string {
 		return fmt.Sprintf("%04d-%02d-%02d 00:00:00.000000", y, m, d)
 	case "2006-01-02 15:04:05.000": // midnight
 		return fmt.Sprintf("%04d-%02d-%02d 00:00:00.000", y, m, d)
+	case "2006-01-02T15:04": // layouts whose values carry upper-case letters that are matched exactly (T, Z, AM/PM), at midnight
+		return fmt.Sprintf("%04d-%02d-%02dT00:00", y, m, d)
+	case "2006-01-02T15:04:05Z07:00":
+		return fmt.Sprintf("%04d-%02d-%02dT00:00:00Z", y, m, d)
+	case "Jan 2 2006 3:04PM":
+		return fmt.Sprintf("%s %d %04d 12:00AM", vMonthAbbr[m-1], d, y)
 	case "2006-01-02 15:04": // midnight; records with a time of day are rendered by their generator
 		return fmt.Sprintf("%04d-%02d-%02d 00:00", y, m, d)
 	}
